@@ -212,6 +212,7 @@ def pipeline(tier):
     rc, out, _ = vlib.tlc(SPEC, "MCMvsGen", cfg="MCMvsGen.cfg", workers=16, timeout=3000, heap="8g",
                           files={"MCMvsGen.tla": body, "MCMvsGen.cfg": cfg})
     gen, dist = vlib.tlc_stats(out)
+    res["cotag_universes"] = sum(1 for c in cases if c["u"].get("cotag"))
     res["design"] = {"ok": "No error has been found" in out, "distinct": dist, "generated": gen, "universes": len(design), "errors": vlib.tlc_error(out)[:3]}
     binary = vlib.build_test("internal/mvs", wd)
     lines = vlib.run_harness(binary, "TestVerifMVS", cases, wd, extra_env={"VERIF_SEED": str(sd)}, timeout=1500)
@@ -259,7 +260,7 @@ def check(prop, tier):
         level = "exploration"
     cov = {"states": res["design"]["distinct"], "transitions": res["design"]["generated"],
            "traces_validated_against_impl": n, "samples": res["samples"], "real_calls": res["calls"],
-           "universes_model_checked": res["design"]["universes"], "universes_executed": res["universes"],
+           "universes_model_checked": res["design"]["universes"], "universes_executed": res["universes"], "universes_with_two_tags_on_one_commit": res.get("cotag_universes", 0),
            "evaluations": n, "distinct_nontrivial": res["universes"], "exhaustive": False,
            "operations_that_returned_an_error": res["op_errors"],
            "rule": "seeded sample of all universes over {a/1 a/2 b/1 b/2 a@v2/1} (each version requiring at most one version of each other project, cycles included) with 5 root sets, plus random universes of 2-5 projects x 1-4 versions (+ a v2 major); each resolved with a cold cache, a warm cache and a fresh cache under shuffled declaration order; tidy, upgrade-all and get queries (latest, exact, <, <=, >, >=, upgrade, patch, ref) each applied twice; universes with patch releases and untagged revisions (pseudo-versions, branch refs) and two-operation sequences; distinct = distinct universes",
